@@ -4,7 +4,7 @@
 pat=${1:-.}
 out=/verif/seeded/RESULTS.tsv
 tmp=$(mktemp)
-for d in /verif/seeded/C*-m*; do
+for d in /verif/seeded/C??-*/; do d=${d%/}
   id=$(basename $d); p=${id%%-*}
   echo $id | grep -q "$pat" || { grep "^$id	" $out >> $tmp 2>/dev/null; continue; }
   r=$(/verif/tools/eval_seed.sh $d/patch.diff $id $p | tail -1)
